@@ -1,12 +1,13 @@
 #!/bin/bash
 # sweep.sh <tier> <seed>... : runs every registered check at the given seeds; prints one line per run.
+# SWEEP_CHECKS="C05 C06" restricts / orders the checks.
 # Evidence/replay of the sweep go to a scratch VERIF_OUT so that committed evidence is not touched.
 TIER=$1; shift
 cd "$(dirname "$0")/.."
 export VERIF_OUT=$(mktemp -d /tmp/verif-sweep.XXXXXX)
 fail=0
 for seed in "$@"; do
-  for c in C01 C02 C03 C04 C05 C06 C07 C08 C09 C10 C11 C12 C13 C14 C15 C16 C17 C18 C19 C20; do
+  for c in ${SWEEP_CHECKS:-C01 C02 C03 C04 C05 C06 C07 C08 C09 C10 C11 C12 C13 C14 C15 C16 C17 C18 C19 C20}; do
     t0=$(date +%s)
     out=$(VERIF_SEED=$seed ./run $c $TIER 2>&1); rc=$?
     t1=$(date +%s)
